@@ -415,8 +415,7 @@ def consumer_id_loc(ctx, model, e, rng):
             code = pick(e, which) + (e.children[0].low if e.children else '00')
         else:
             code = e.path()[0].low + pick(e, which)
-        w = code + '00' + '120580' + '0001'
-        w = code[:4] + '120580' + '000001'[:6]
+        w = code[:4] + '01' + '120580' + '0001'     # province, regency, district, DDMMYY, serial
         ctx.expect('stdnum.id.nik', 'validate', (w,), w, 'location-entry-validates', e.label())
 
 
@@ -580,9 +579,7 @@ def _worker(task):
         col.tick('grammar:' + name, n=nlines)
     consumer = CONSUMERS.get(name)
     with common.frozen_today(TODAY):
-        for i in range(start, len(allentries), step):
-            if stride > 1 and i % stride:
-                continue
+        for i in list(range(0, len(allentries), stride))[start::step]:
             e = allentries[i]
             rng = random.Random('%s/%s/%d' % (seed, name, i))
             col.nontriv('%s|%d' % (name, i))
@@ -607,10 +604,10 @@ def search(seed, tier):
     tasks = []
     stride = 1
     for name in registry_names():
-        n = 16 if name == 'oui' else 4 if name in ('cn/loc', 'imsi', 'at/postleitzahl', 'nz/banks', 'cfi', 'isbn') else 1
+        n = 16 if name == 'oui' else 8 if name == 'cn/loc' else 4 if name in ('imsi', 'at/postleitzahl', 'nz/banks', 'isbn') else 1
         st = 1
         if name == 'oui' and tier == 'quick':
-            st = stride = 12
+            st = stride = 20
         for k in range(n):
             tasks.append((seed, tier, name, k, n, st))
     col = E.Collector()
